@@ -47,4 +47,5 @@ de49e21 C28 a banned namespace and a key of exactly NamespaceOffset+8 bytes
 1f81c9a C23 EncryptionKeyRotationDuration longer than the time since 1970 on a new database
 f91e4b0 C23 a read-only open after the data-key rotation interval has elapsed
 ae7c466 C31 a merge function that returns one of its arguments and more than 100 un-merged versions
+9cf37dd C30 DetectConflicts=false and two Sequence objects leasing at the same time
 L
